@@ -1,13 +1,43 @@
-(* C03 — pinned statements; proofs live in Proofs/. *)
-From NW Require Import Base.Bytes Model.SchemaTypes Gen.Schema Model.Codec Model.Ids Model.Server.
+(* C03 — Channel ACL decisions always agree with the ACL the owner reads back.
+   Pinned statements; proofs in Proofs/AclProofs.v (ACL algebra) and Proofs/ServerSteps.v (enforcement points). *)
+From NW Require Import Base.Bytes Model.Ids Model.Server Proofs.AclProofs.
 
-(* the model computes: a client connects, identifies and creates a channel *)
-Example C03_model_smoke :
-  let cfg := {| domain := bs "localhost"; has_mod := false; op_auth := false; op_fbp := false; op_fev := false; op_spp := false;
-                proto := []; max_clients := 10; max_subs := 10; max_payload_cfg := 1024; max_inflight := 10; max_message := 1024;
-                keepalive := 60000; min_keepalive := 1000; max_conns := 16; pool_budget := 4194304 |} in
-  let s := run_state cfg init [Open 1; Bytes 1 (bs "CONNECT version=1 heartbeat_interval=0" ++ [NL]) [] [];
-                               Bytes 1 (bs "IDENTIFY username=alice" ++ [NL]) [] [];
-                               Bytes 1 (bs "JOIN id=1 channel=!c1@localhost" ++ [NL]) [] []] in
-  map fst (chans s) = [bs "c1"] /\ map fst (router s) = [bs "alice"].
-Proof. vm_compute. split; reflexivity. Qed.
+(* every ACL reachable from the empty one by any sequence of add/remove batches is well-formed *)
+Theorem C03_reachable_wf : forall batches, acl_wf (acl_run [] batches).
+Proof. exact acl_reachable_wf. Qed.
+
+(* the decision is exactly: reported list empty, or lists the NID, or lists its bare domain *)
+Theorem C03_decision_is_reported_list : forall a n, acl_wf a -> nu n <> [] ->
+  (acl_allowed a n = true <->
+   (acl_allow_list a = [] \/ In n (acl_allow_list a) \/ In {| nu := []; nd := nd n |} (acl_allow_list a))).
+Proof. exact acl_decision_is_reported_list. Qed.
+
+(* an acknowledged add lists every named user NID; an acknowledged remove lists none of them *)
+Theorem C03_add_present : forall a ns n, acl_wf a -> In n ns -> nu n <> [] ->
+  In n (acl_allow_list (acl_update a ns true)).
+Proof. exact acl_add_present. Qed.
+Theorem C03_remove_absent : forall a ns n, acl_wf a -> In n ns -> nu n <> [] ->
+  ~ In n (acl_allow_list (acl_update a ns false)).
+Proof. exact acl_remove_absent. Qed.
+
+(* the entry limit counts exactly the reported entries (after the bare-domain counting fix) *)
+Theorem C03_total_counts_reported : forall a, acl_total a = N.of_nat (length (acl_allow_list a)).
+Proof. exact acl_total_counts_reported_gen. Qed.
+
+(* the three lists are independent: setting one type leaves the other two untouched *)
+Theorem C03_lists_independent : forall ch ty a,
+  (list_eqb ty (bs "join") = false -> ch_join (set_acl ch ty a) = ch_join ch) /\
+  (list_eqb ty (bs "publish") = false -> ch_pub (set_acl ch ty a) = ch_pub ch) /\
+  (list_eqb ty (bs "read") = false -> ch_read (set_acl ch ty a) = ch_read ch).
+Proof.
+  intros ch ty a. unfold set_acl, retarget. cbn [ch_join ch_pub ch_read].
+  repeat split; intro H; rewrite H; reflexivity.
+Qed.
+
+(* delivery uses the same decision: the cached reader list is the member list filtered by the read ACL *)
+Theorem C03_delivery_uses_read_acl : forall ch ty a,
+  ch_targets (set_acl ch ty a) = filter (acl_allowed (ch_read (set_acl ch ty a))) (ch_members (set_acl ch ty a)).
+Proof. intros. reflexivity. Qed.
+
+Print Assumptions C03_decision_is_reported_list.
+Print Assumptions C03_add_present.
